@@ -33,6 +33,10 @@ def var(v):
 
 def body(i):
     op = i["op"]
+    i = dict(i)
+    for k in ("store", "a", "b", "arr", "idx", "o", "v"):
+        if k in i and i[k] is None and not (k == "v" and op == "RETURN"):
+            i[k] = 9999       # a missing operand: a reference that is never defined
     if op == "LOAD": return "(ILoad %s %s)" % (SC[i["scope"]], var(i["var"]))
     if op == "STORE": return "(IStore %s %s %d)" % (SC[i["scope"]], var(i["var"]), i["store"])
     if op in ("LOAD_ARRAY", "VECTOR_GET", "MATRIX_GET"):
